@@ -1067,3 +1067,77 @@ def json_member_order(P, rep, rule="JSON.order"):
     if not bad:
         rep.ok(rule, "%d rapidjson member accesses in library code, none positional" % n)
     rep.floor(rule, n, 2, "rapidjson object-member accesses in library code")
+
+
+# ------------------------------------------------------------------------------------------------
+def indexed_store_bounds(P, rep, rule="A2.store"):
+    """stores M[i] into a member vector inside `for (i = 0; i < B; ++i)` stay inside the vector"""
+    import sympy as sp
+    rep.rule(rule, "in the library, a store `M[i] = ...` into a member vector M inside a counting loop `for (i = s; i < B; ++i)` is covered "
+                   "by the size M was given in the same function: M.resize(B), M.resize(R) with R - B a non-negative constant, or - when B is "
+                   "X.size() - X.resize(R) and M.resize(R) with the same R; a loop bounded by M.size() itself is covered trivially")
+    n = 0
+    for F in sorted(P.funcs.values(), key=lambda f: (f.file, f.qn)):
+        if F.body is None or "/source/world_builder/" not in F.file:
+            continue
+        Rr = lambda x, F=F: norm.render(P, x, nocast=True, subst=norm.naming_locals(P, F)).replace(" ", "").replace("this->", "")
+        resized = {}
+        for z in F.walk(F.body):
+            m = astq.member_call(P, z, "resize")
+            if m and m[2] and sc(m[0]) is not None and sc(m[0]).get("k") in ("MemberExpr", "DeclRefExpr"):
+                resized.setdefault(sc(m[0]).get("r"), []).append(m[2][0])
+        for L in F.walk(F.body):
+            if L.get("k") != "ForStmt":
+                continue
+            init, cond = L["c"][0], sc(L["c"][1])
+            iv = init["c"][0] if init is not None and init.get("k") == "DeclStmt" and init["c"] else None
+            if iv is None or cond is None or cond.get("k") != "BinaryOperator" or cond.get("op") not in ("<", "<=") or not astq.is_ref_to(cond["c"][0], iv["r"]):
+                continue
+            for y in F.walk(L["c"][3]):
+                if not (y.get("k") in ("BinaryOperator", "CXXOperatorCallExpr") and y.get("op") == "="):
+                    continue
+                kids = [x for x in y["c"] if x is not None]
+                s = astq.subscript(kids[-2])
+                if not (s and astq.is_ref_to(s[1], iv["r"])):
+                    continue
+                b = sc(s[0])
+                if not (b.get("k") == "MemberExpr" and astq.is_this_field(P, b) and astq.enclosing(F, y, ("ForStmt",)) is L):
+                    continue
+                n += 1
+                bound = cond["c"][1]
+                btxt = Rr(bound)
+                if cond["op"] == "<=":
+                    btxt = "(%s+1)" % btxt
+                sizes = resized.get(b.get("r"), [])
+                ok = False
+                why = "%s is not resized in this function" % b.get("n")
+                if btxt == b.get("n") + ".size()":
+                    ok = True
+                for r_ in sizes:
+                    rtxt = Rr(r_)
+                    if rtxt == btxt:
+                        ok = True
+                        break
+                    # numeric slack: R - B a non-negative constant
+                    try:
+                        S = norm.Sym(P, F, inline_locals=False, name_only=True)
+                        d_ = sp.expand(S(r_) - S(bound) - (1 if cond["op"] == "<=" else 0))
+                        if d_.is_number and d_ >= 0:
+                            ok = True
+                            break
+                    except Exception:
+                        pass
+                    # B = X.size() and X.resize(R') with R' == R
+                    bm = astq.member_call(P, bound, "size")
+                    if bm and sc(bm[0]) is not None and sc(bm[0]).get("r") in resized:
+                        if any(Rr(r2) == rtxt for r2 in resized[sc(bm[0])["r"]]):
+                            ok = True
+                            break
+                    why = "%s has %s elements, the loop runs to %s" % (b.get("n"), rtxt[:50], btxt[:50])
+                if ok:
+                    continue
+                rep.violation(rule, "%s: %s[%s] is stored for %s < %s, but %s" % (F.qn.replace("WorldBuilder::", ""), b.get("n"), iv.get("n"), iv.get("n"), btxt[:50], why),
+                              F.nloc(y), F.qn, norm.render(P, y)[:140], "a list longer than the vector writes past its end",
+                              key="%s|%s|%s" % (rule, F.qn, b.get("n")), witness="an input list that is longer than the list the vector was sized from")
+    rep.ok(rule, "%d indexed stores into member vectors, all covered by a size fact of the same function" % n)
+    rep.floor(rule, n, 12, "indexed stores into member vectors inside counting loops")
